@@ -63,15 +63,28 @@ def run_broker(c):
 
     def spy(self, txn):
         orig(self, txn)
+        k = executing[0] if executing[0] is not None else oid.get(txn.order_id, -1)
         fills.append([self.portfolio_id, [txn.asset, num(txn.quantity), sec(txn.dt), num(txn.price),
-                                          num(txn.commission), oid.get(txn.order_id, -1)]])
+                                          num(txn.commission), k]])
     oid = {}
+    by_obj = {}        # id(Order object) -> submission number (order ids supplied by the caller may repeat)
+    keep = []
+    executing = [None]
     nxt = [0]
     Portfolio.transact_asset = spy
+    orig_exec = getattr(SimulatedBroker, '_execute_order', None)
+    if orig_exec is not None:
+        def spy_exec(self, dt, portfolio_id, order):
+            executing[0] = by_obj.get(id(order))
+            try:
+                return orig_exec(self, dt, portfolio_id, order)
+            finally:
+                executing[0] = None
+        SimulatedBroker._execute_order = spy_exec
     def bsnap():
         return [sec(broker.current_dt), num(broker.cash_balances[broker.base_currency]),
                 [[pid, pf_snap(pf),
-                  [[oid.get(o.order_id, -1), o.asset, num(o.quantity)] for o in list(broker.open_orders[pid].queue)]]
+                  [[by_obj.get(id(o), oid.get(o.order_id, -1)), o.asset, num(o.quantity)] for o in list(broker.open_orders[pid].queue)]]
                  for pid, pf in broker.portfolios.items()],
                 [[k, num(v)] for k, v in sorted(broker.cash_balances.items())]]
     try:
@@ -93,10 +106,16 @@ def run_broker(c):
                 elif k == 'wdpf':
                     broker.withdraw_funds_from_portfolio(op[1], op[2])
                 elif k == 'submit':
-                    o = (Order(broker.current_dt, op[2], op[3], commission=op[4]) if len(op) > 4
-                         else Order(broker.current_dt, op[2], op[3]))
+                    kw = {}
+                    if len(op) > 4:
+                        kw['commission'] = op[4]
+                    if cfg.get('dup_ids'):
+                        kw['order_id'] = 'SAME-ID'          # caller-supplied, repeated order ids
+                    o = Order(broker.current_dt, op[2], op[3], **kw)
                     broker.submit_order(op[1], o)
                     oid[o.order_id] = nxt[0]
+                    by_obj[id(o)] = nxt[0]
+                    keep.append(o)
                     nxt[0] += 1
                 elif k == 'update':
                     broker.update(ts(op[1]))
@@ -148,6 +167,8 @@ def run_broker(c):
         return {'init': ['ok'], 'snap0': snap0, 'steps': steps, 'hist': hist, 'dfrows': dfrows}
     finally:
         Portfolio.transact_asset = orig
+        if orig_exec is not None:
+            SimulatedBroker._execute_order = orig_exec
 
 
 def run_portfolio(c):
